@@ -319,6 +319,47 @@ def seed_variants(prop: str, root: str):
         yield s, {rel: src.replace(s["old"], s["new"], 1)}, None
 
 
+def _patch_edits(root: str, patch_file: str):
+    """{relpath: patched source} for a unified diff applied to the current tree, or (None, why)."""
+    import tempfile
+    txt = open(patch_file).read()
+    rels = [l[6:].strip() for l in txt.splitlines() if l.startswith("+++ b/")]
+    if not rels:
+        return None, "no files in the patch"
+    tmp = tempfile.mkdtemp(prefix="kv_patch_")
+    try:
+        for rel in rels:
+            src = os.path.join(root, rel)
+            if not os.path.exists(src):
+                return None, f"{rel} missing"
+            os.makedirs(os.path.dirname(os.path.join(tmp, rel)), exist_ok=True)
+            shutil.copy(src, os.path.join(tmp, rel))
+        r = subprocess.run(["patch", "-p1", "--batch", "--silent", "--no-backup-if-mismatch", "-F", "0", "-i", os.path.abspath(patch_file)], cwd=tmp, capture_output=True, text=True)
+        if r.returncode != 0:
+            return None, "does not apply to the current tree"
+        return {rel: open(os.path.join(tmp, rel)).read() for rel in rels}, None
+    finally:
+        shutil.rmtree(tmp, ignore_errors=True)
+
+
+def corpus_variants(prop: str, root: str):
+    """Patches written by independent agents and kept under /verif: behaviour-preserving rewrites (refactors/, must stay
+    silent) and property-breaking changes (seeded/<prop>-*, must be reported).  A patch that no longer applies to the
+    tree under analysis is skipped."""
+    import glob
+    mods = set(PROP_FILES.get(prop, []))
+    for pf in sorted(glob.glob(os.path.join(VERIF_ROOT, "refactors", "*", "patch*.diff"))):
+        txt = open(pf).read()
+        touched = {os.path.basename(l[6:].strip())[:-3] for l in txt.splitlines() if l.startswith("+++ b/")}
+        if not (touched & mods):
+            continue
+        edits, why = _patch_edits(root, pf)
+        yield "benign", os.path.relpath(pf, VERIF_ROOT), edits, why
+    for pf in sorted(glob.glob(os.path.join(VERIF_ROOT, "seeded", f"{prop}-*", "patch.diff"))):
+        edits, why = _patch_edits(root, pf)
+        yield "break", os.path.relpath(pf, VERIF_ROOT), edits, why
+
+
 def run_selftest(ctx) -> None:
     """Called by the thorough tier after the rules ran on the real tree."""
     res = ctx.result
@@ -333,6 +374,12 @@ def run_selftest(ctx) -> None:
             res.note(f"seeded break '{s.get('name')}' not applicable to the current tree ({why})")
             continue
         jobs.append(("seed", s.get("name", "?"), edits, s))
+    n_corpus_skipped = 0
+    for kind, name, edits, why in corpus_variants(prop, root):
+        if edits is None:
+            n_corpus_skipped += 1
+            continue
+        jobs.append(("corpus-" + kind, name, edits, None))
     results = []
     with ThreadPoolExecutor(max_workers=min(16, max(1, len(jobs)))) as ex:
         futs = [(j, ex.submit(run_variant, prop, root, j[2])) for j in jobs]
@@ -341,7 +388,7 @@ def run_selftest(ctx) -> None:
                 results.append((j, f.result()))
             except Exception as e:
                 results.append((j, (99, [f"runner error: {e}"])))
-    n_eq = n_eq_ok = n_seed = n_seed_ok = 0
+    n_eq = n_eq_ok = n_seed = n_seed_ok = n_cb = n_cb_ok = n_ck = n_ck_ok = 0
     for (kind, name, edits, seed), (code, lines) in results:
         viol = [l for l in lines if "VIOLATION" in l]
         if kind == "equiv":
@@ -353,6 +400,23 @@ def run_selftest(ctx) -> None:
                 detail = [l for l in lines if "[" in l and "]" in l and ("src/" in l or "ANALYSIS" in l)][:3]
                 res.error(f"self-validation: equivalence-preserving rewrite '{name}' makes the check exit {code}: {detail}")
             res.sample({"variant": name, "kind": "equivalence-preserving", "files": sorted(edits), "exit": code})
+        elif kind == "corpus-benign":
+            n_cb += 1
+            if code == 0:
+                n_cb_ok += 1
+                res.ok("self:benign-corpus", f"{prop}:{name}", "silent on an agent-written behaviour-preserving rewrite")
+            else:
+                detail = [l for l in lines if "[" in l and "]" in l and ("src/" in l or "ANALYSIS" in l)][:3]
+                res.error(f"self-validation: behaviour-preserving rewrite '{name}' makes the check exit {code}: {detail}")
+            res.sample({"variant": name, "kind": "agent rewrite (benign)", "exit": code})
+        elif kind == "corpus-break":
+            n_ck += 1
+            if code == 1:
+                n_ck_ok += 1
+                res.ok("self:seeded-break", f"{prop}:{name}", "agent-written break reported")
+            else:
+                res.error(f"self-validation: agent-written break '{name}' is not reported (exit {code})")
+            res.sample({"variant": name, "kind": "agent break", "exit": code})
         else:
             n_seed += 1
             rule = seed.get("rule")
@@ -364,4 +428,5 @@ def run_selftest(ctx) -> None:
                 res.error(f"self-validation: seeded break '{name}' is not reported (exit {code}; expected a VIOLATION under rule {rule})")
             res.sample({"variant": name, "kind": "seeded break", "rule": rule, "exit": code})
     res.analysed["selftest"] = {"equivalence_variants": n_eq, "equivalence_silent": n_eq_ok, "seeded_breaks": n_seed, "seeded_breaks_reported": n_seed_ok,
-                                "seeded_breaks_skipped": n_seed_skipped}
+                                "seeded_breaks_skipped": n_seed_skipped, "agent_rewrites": n_cb, "agent_rewrites_silent": n_cb_ok,
+                                "agent_breaks": n_ck, "agent_breaks_reported": n_ck_ok, "corpus_patches_not_applicable": n_corpus_skipped}
